@@ -243,3 +243,72 @@ def obs_fusion(ctx, k, act, d, nv, problems):
         return
     if c is not None:
         ctx["emit"].append(c)
+
+
+# ------------------------------------------------------------------ C08 (termination, idempotence, no new exception)
+def optimize_case(d, at=0, max_passes=70):
+    from dask._expr import collect_dependents
+
+    from dask_array._materialize import _lower as mat_lower  # noqa: F401  (import check only)
+
+    e = d.expr
+    obs = {"fn": "optimize", "at": at, "raw_ok": 1, "err": "", "stage": "", "passes": [], "opt1": "", "opt2": "", "simp1": "",
+           "simp2": "", "low1": "", "low2": "", "opt_ok": 1}
+    try:
+        with warnings.catch_warnings():
+            warnings.simplefilter("ignore")
+            run_graph(fresh(d), False)
+    except Exception as ex:
+        obs["raw_ok"] = 0
+        obs["raw_err"] = f"{type(ex).__name__}: {str(ex)[:160]}"
+        return obs
+    stage = "simplify"
+    try:
+        with warnings.catch_warnings():
+            warnings.simplefilter("ignore")
+            cur = e
+            for _ in range(max_passes):
+                new = cur.simplify_once(dependents=collect_dependents(cur), simplified={})
+                obs["passes"].append({"stage": "simplify", "name": new._name})
+                if new._name == cur._name:
+                    break
+                cur = new
+            stage = "lower"
+            for _ in range(max_passes):
+                new = cur.lower_once({})
+                obs["passes"].append({"stage": "lower", "name": new._name})
+                if new._name == cur._name:
+                    break
+                cur = new
+            stage = "simplify"
+            s1 = e.simplify()
+            obs["simp1"], obs["simp2"] = s1._name, s1.simplify()._name
+            stage = "lower"
+            l1 = s1.lower_completely()
+            obs["low1"], obs["low2"] = l1._name, l1.lower_completely()._name
+            stage = "fuse"
+            o1 = e.optimize()
+            obs["opt1"] = o1._name
+            stage = "optimize-again"
+            o2 = o1.optimize()
+            obs["opt2"] = o2._name
+            if o2._name != o1._name:
+                # diagnostics for findings: is the second result a fixpoint, and is it smaller?
+                obs["opt3"] = o2.optimize()._name
+                obs["nodes1"], obs["nodes2"] = len(list(o1.walk())), len(list(o2.walk()))
+    except Exception as ex:
+        obs["err"] = f"{type(ex).__name__}: {str(ex)[:200]}"
+        obs["stage"] = stage
+        return obs
+    try:
+        with warnings.catch_warnings():
+            warnings.simplefilter("ignore")
+            run_graph(fresh(d), True)
+    except Exception as ex:
+        obs["opt_ok"] = 0
+        obs["opt_err"] = f"{type(ex).__name__}: {str(ex)[:200]}"
+    return obs
+
+
+def obs_optimize(ctx, k, act, d, nv, problems):
+    ctx["emit"].append(optimize_case(d, k))
